@@ -255,10 +255,26 @@ def copy_discipline(ctx, rep, R):
         loops = _enclosing_loops(f, c)
         order_loop = loops[-1] if loops else None
         rt = utext(c.args[1]) if len(c.args) > 1 else None
-        d = [s for s in walk_nodes(order_loop.body if order_loop else [], ast.Assign) if utext(s.targets[0]) == rt]
-        good = len(d) == 1 and isinstance(d[0].value, ast.Subscript) and \
-            utext(d[0].value.slice) == "(order.selection_id, order.handicap)"
-        lookup = utext(d[0].value.value) if good else None
+        from sa.kinds import expanded, guard_pairs
+        own_key = "(order.selection_id, order.handicap)"
+        d = [s for s in walk_nodes(order_loop.body if order_loop else [], ast.Assign) if rt in [utext(t) for t in s.targets]]
+        lookup, memo = None, None
+        # (a) direct: runner_traded = LOOKUP[(order.selection_id, order.handicap)]
+        if len(d) == 1 and isinstance(d[0].value, ast.Subscript) and expanded(f, d[0].value.slice) == own_key:
+            lookup = utext(d[0].value.value)
+        # (b) memoised: runner_traded = LOOKUP.get(key); if runner_traded is None: runner_traded = LOOKUP[key] = (.., traded.copy())
+        elif len(d) == 2:
+            g_ = [s for s in d if isinstance(s.value, ast.Call) and call_name(s.value) == "get" and len(s.value.args) == 1
+                  and expanded(f, s.value.args[0]) == own_key]
+            f_ = [s for s in d if s not in g_ and len(s.targets) == 2 and any(
+                isinstance(t, ast.Subscript) and expanded(f, t.slice) == own_key for t in s.targets)]
+            if len(g_) == 1 and len(f_) == 1:
+                tgt = [t for t in f_[0].targets if isinstance(t, ast.Subscript)][0]
+                nfill = [x for x in cfg.live_nodes() if x.ast is f_[0]]
+                if utext(tgt.value) == recv_text(g_[0].value) and len(nfill) == 1 and \
+                        ("%s is None" % rt, True) in guard_pairs(cfg, nfill[0].id):
+                    lookup, memo = utext(tgt.value), f_[0]
+        good = lookup is not None
         rep.check(good, R, key(f, c, "ladder looked up by the order's own (selection, handicap)"), f, c)
         if not good:
             continue
@@ -269,9 +285,17 @@ def copy_discipline(ctx, rep, R):
         if ok:
             dd = defs[0]
             v = dd.value
-            copies = [x for x in walk_calls([v]) if call_name(x) == "copy"]
-            ok = isinstance(v, ast.DictComp) and len(copies) == 1 and utext(copies[0].func.value).endswith(".traded")
             dl = _enclosing_loops(f, dd)
+            if memo is None:
+                copies = [x for x in walk_calls([v]) if call_name(x) == "copy"]
+                ok = isinstance(v, ast.DictComp) and len(copies) == 1 and utext(copies[0].func.value).endswith(".traded")
+            else:
+                # the table starts empty in the right scope and a runner's ladder is copied when its first order
+                # comes up (the fill above is guarded by the miss), from the analytics entry of that same key
+                copies = [x for x in walk_calls([memo.value]) if call_name(x) == "copy"]
+                src = expanded(f, copies[0].func.value) if len(copies) == 1 else ""
+                ok = isinstance(v, ast.Dict) and not v.keys and len(copies) == 1 and \
+                    src in ("market_analytics[%s].traded" % own_key, "market_analytics[order.selection_id, order.handicap].traded")
             if isolated:
                 strat = [lp for lp in loops if "_strategy_orders" in utext(lp.iter)]
                 ok = ok and len(strat) == 1 and strat[0] in dl and order_loop not in dl
